@@ -634,6 +634,16 @@ Theorem C07_nn_norm_sparsity_refuted :
 Proof. exact nn_norm_sparsity_refuted. Qed.
 Print Assumptions C07_nn_norm_sparsity_refuted.
 
+(* with l2_reg AND normalize_factors the renormalisation changes the ridge terms: no penalised objective descends across iterations *)
+Theorem C07_cp_l2_norm_refuted :
+  exists (X : tensor R) (st : cpstate) (lam : R) (rank : nat) (norms : nat -> cpstate -> list R * list R),
+    let st' := cp_normalize_m Rops (shape X) rank norms st in
+    0 < lam /\
+    cp_sqerr Rops X (fst st') (snd st') rank = cp_sqerr Rops X (fst st) (snd st) rank /\
+    cp_obj_all Rops X (fst st) (snd st) lam rank < cp_obj_all Rops X (fst st') (snd st') lam rank.
+Proof. exact cp_l2_norm_refuted. Qed.
+Print Assumptions C07_cp_l2_norm_refuted.
+
 (* ---------- non-vacuity: the hypotheses of the theorems above are satisfiable (and the descent can be strict) ---------- *)
 Example C07_cp_nonvacuous :
   let X := mk [2;2]%nat [1;2;3;4] in let w := [1] in let facs := [[[1];[1]]; [[1];[2]]] in
